@@ -589,6 +589,26 @@ def main():
         raise ValueError("unrecognised SingletonDecorator.__call__")
     g.attempt("singletonLocked", True, singleton_locked)
 
+    def singleton_publishes_early():
+        """is `self.instance` ever assigned something other than the finished `self.klass(...)` call (an object whose
+        initialiser has not run yet, a roll-back to None)?"""
+        fn = find_func(find_class(sing, "SingletonDecorator"), "__call__")
+        stores = []
+        for n in ast.walk(fn):
+            targets = n.targets if isinstance(n, ast.Assign) else [n.target] if isinstance(n, (ast.AugAssign, ast.AnnAssign)) else []
+            for t in targets:
+                for t1 in ast.walk(t):
+                    if isinstance(t1, ast.Attribute) and t1.attr == "instance":
+                        stores.append(unparse(n.value) if getattr(n, "value", None) is not None else "?")
+            if isinstance(n, ast.Call) and unparse(n.func) in ("setattr", "object.__setattr__") and "instance" in unparse(n):
+                stores.append("setattr")
+        if stores == ["self.klass(*args, **kwargs)"]:
+            return False
+        if len(stores) >= 2 and any(x != "self.klass(*args, **kwargs)" for x in stores) and "__init__" in unparse(fn):
+            return True
+        raise ValueError("unrecognised stores to SingletonDecorator.instance: %s" % stores)
+    g.attempt("singletonPublishesEarly", False, singleton_publishes_early)
+
     def registry_locked():
         res = []
         for cname in ("OrderedDictWithParams", "SignalSource"):
@@ -700,7 +720,7 @@ def main():
                      v["fab.feOrder"], v["fab.lifoDeliver"], b(v["fab.startKeepsHandles"]), b(v["fab.clearInPlace"]),
                      b(v["fab.subscribeKeepsOthers"])))
     lines.append("def fifoDeliverPlain : Bool := " + b(v["fab.fifoDeliverPlain"]))
-    for k in ("singletonLocked", "registryLocked", "tsaFlagPerThread", "tsaPerInstance", "tsaProtocol", "singleLineStripped"):
+    for k in ("singletonLocked", "singletonPublishesEarly", "registryLocked", "tsaFlagPerThread", "tsaPerInstance", "tsaProtocol", "singleLineStripped"):
         lines.append("def %s : Bool := %s" % (k, b(v[k])))
     for k in ("notAtomicPattern", "lockRequestPattern", "stripPattern"):
         lines.append("def %s : String := %s" % (k, lean_str(v[k])))
